@@ -115,6 +115,7 @@ func runC15(ctx *Ctx) {
 	}
 	ctx.Cov.Sample(map[string]any{"text": "  foo\n    bar\n", "description": string(mustDescr([]byte("  foo\n    bar\n")))})
 	c15EndToEnd(ctx, r)
+	c15AnnotationSpelling(ctx, r)
 }
 
 // enumPieces: all concatenations of at most n pieces
@@ -302,4 +303,124 @@ func specDescription(t []byte) ([]byte, bool) {
 		lines[i] = strings.TrimPrefix(l, indent)
 	}
 	return []byte(strings.Join(lines, "\n")), true
+}
+
+
+// specAnnotation: an annotation is its text with white-space runs collapsed to one blank and no surrounding blanks
+// (written from the statement of C15).
+func specAnnotation(t string) string {
+	return strings.Join(strings.Fields(t), " ")
+}
+
+// c15AnnotationSpelling: the same annotation text written after "//" and between "/*" and "*/", on every kind of line
+// that takes an annotation: both documents are accepted, give the same catalog, and the annotation in the catalog is
+// the text with its white space collapsed. The texts are all sequences of a few pieces that matter to the two
+// spellings: words, blanks, '*' (also right before the closing "*/"), '/', '#', quotes.
+func c15AnnotationSpelling(ctx *Ctx, r *Rng) {
+	type host struct {
+		name, before, line, after string
+		path                      []string
+	}
+	hosts := []host{
+		{"method", "", "GET /a", "\n  200 any\n", []string{"interactions", "http GET /a", "annotation"}},
+		{"response", "GET /a\n", "  200 any", "\n", []string{"interactions", "http GET /a", "responses", "0", "annotation"}},
+		{"type", "", "TYPE @t", "\n{}\nGET /a\n  200 any\n", []string{"userTypes", "@t", "annotation"}},
+		{"server", "", "SERVER @s", "\n  BaseUrl \"http://x\"\nGET /a\n  200 any\n", []string{"servers", "@s", "annotation"}},
+		{"rpc method", "URL /r\n  Protocol json-rpc-2.0\n", "  Method foo", "\n    Params\n    {}\n", []string{"interactions", "json-rpc-2.0 foo /r", "annotation"}},
+	}
+	pieces := []string{"a", "b c", " ", "  ", "*", "**", "/", "\t", "\"", "x*y", "*/", "#"}
+	var texts []string
+	var rec func(prefix string, depth int)
+	rec = func(prefix string, depth int) {
+		if prefix != "" {
+			texts = append(texts, prefix)
+		}
+		if depth == 3 {
+			return
+		}
+		for _, p := range pieces {
+			rec(prefix+p, depth+1)
+		}
+	}
+	rec("", 0)
+	cases, skipped := 0, 0
+	n := ctx.Budget(1500, 100000)
+	for i := 0; i < n && len(ctx.Violations) < 10; i++ {
+		t := texts[r.Intn(len(texts))]
+		if i < len(texts) && ctx.Thorough() {
+			t = texts[i]
+		}
+		want := specAnnotation(t)
+		if want == "" || strings.Contains(t, "*/") || strings.Contains(t, "#") {
+			// "*/" ends the block spelling, "#" starts a comment: not the same text in both spellings
+			skipped++
+			continue
+		}
+		h := hosts[r.Intn(len(hosts))]
+		line := "JSIGHT 0.3\n" + h.before + h.line + " // " + t + h.after
+		block := "JSIGHT 0.3\n" + h.before + h.line + " /* " + t + " */" + h.after
+		tight := "JSIGHT 0.3\n" + h.before + h.line + " /*" + t + "*/" + h.after
+		rl := RunProject(SingleFile([]byte(line)), false)
+		cases++
+		ctx.Cov.Count([]byte(line), strings.ContainsAny(t, "*/"))
+		ctx.Cov.Hit("annotation on a " + h.name + " line")
+		for _, alt := range []string{block, tight} {
+			if alt == tight && (strings.HasPrefix(t, "/") || strings.HasPrefix(t, "*")) && false {
+				continue
+			}
+			rb := RunProject(SingleFile([]byte(alt)), false)
+			in := projectInput(SingleFile([]byte(line)))
+			in["op"] = "doc"
+			in["block"] = alt
+			if rl.Panic != "" || rb.Panic != "" {
+				continue
+			}
+			if rl.Accepted() != rb.Accepted() || !bytes.Equal(rl.JSON, rb.JSON) {
+				what := fmt.Sprintf("after //: %s; between /* and */: %s", rl.Verdict(), rb.Verdict())
+				if rl.Accepted() && rb.Accepted() {
+					what = "the catalogs differ: " + firstDiff(rl.JSON, rb.JSON)
+				}
+				ctx.Violate(Violation{Kind: "wrong-output", Site: "annotation", What: fmt.Sprintf("the annotation %q written after // and between /* */ gives different results (%s line): %s", t, h.name, what),
+					Input: in, Observed: rb.Verdict(), Expected: rl.Verdict(), Signature: "annot-spelling"})
+				break
+			}
+		}
+		if !rl.Accepted() {
+			in := projectInput(SingleFile([]byte(line)))
+			in["op"] = "doc"
+			ctx.Violate(Violation{Kind: "wrong-output", Site: "annotation", What: "a well-formed document with an annotation is rejected: " + rl.Verdict(), Input: in, Signature: "annot-doc-rejected"})
+			continue
+		}
+		doc, _, err := ParseOJSON(rl.JSON)
+		if err != nil {
+			continue
+		}
+		if got := pathIdx(doc, h.path...).Str(); got != want {
+			in := projectInput(SingleFile([]byte(line)))
+			in["op"] = "doc"
+			ctx.Violate(Violation{Kind: "wrong-output", Site: "annotation", What: fmt.Sprintf("annotation on the %s line is %q, the collapsed text is %q", h.name, got, want),
+				Input: in, Observed: got, Expected: want, Signature: "annot-value"})
+		}
+	}
+	ctx.Cov.Component("annotations after // and between /* */ on every kind of line that takes one (specification on the implementation)", cases, len(ctx.Violations), "")
+}
+
+// pathIdx: Path that also walks into arrays (a decimal key is an index)
+func pathIdx(v *OVal, keys ...string) *OVal {
+	cur := v
+	for _, k := range keys {
+		if cur == nil {
+			return nil
+		}
+		if items := cur.Items(); items != nil && len(k) > 0 && k[0] >= '0' && k[0] <= '9' {
+			i := int(k[0] - '0')
+			if i >= len(items) {
+				return nil
+			}
+			cur = items[i]
+			continue
+		}
+		cur = cur.Get(k)
+	}
+	return cur
 }
